@@ -20,6 +20,23 @@ class U(NodeMixin):
         self.parent = parent
 
 
+class UF(NodeMixin):
+    """user class with container semantics: empty and falsy (and all instances equal)"""
+
+    def __init__(self, parent=None, **kw):
+        self.__dict__.update(kw)
+        self.parent = parent
+
+    def __len__(self):
+        return 0
+
+    def __eq__(self, other):
+        return True
+
+    def __hash__(self):
+        return 2
+
+
 KEYS = ["a", "depth", "b", "x_1", "_p", "size", "Z"]  # incl. names of read-only NodeMixin properties
 BOOK = ("_NodeMixin__children", "_NodeMixin__parent")
 
@@ -63,6 +80,8 @@ def make_nodes(clsname, pv, attrs):
             nodes.append(AnyNode(parent=par, **attrs[i]))
         elif clsname == "node":
             nodes.append(Node("n%d" % i, parent=par, **attrs[i]))
+        elif clsname == "userfalsy":
+            nodes.append(UF(parent=par, **attrs[i]))
         else:
             nodes.append(U(parent=par, **attrs[i]))
     return nodes
@@ -205,8 +224,8 @@ def check_tree(node, children, attrs, s, cls, clsname, parent_obj):
 def import_body(cfg):
     """DictImporter.import_ builds an isomorphic tree of nodecls instances from any nested dictionary and does
     not modify its argument; export(import_(d)) == d up to empty 'children' lists; import_(export(t)) ~ t."""
-    clsname = ("anynode", "node", "user")[nondet_int(0, 2, "nodecls")]
-    cls = {"anynode": AnyNode, "node": Node, "user": U}[clsname]
+    clsname = ("anynode", "node", "user", "userfalsy")[nondet_int(0, 3, "nodecls")]
+    cls = {"anynode": AnyNode, "node": Node, "user": U, "userfalsy": UF}[clsname]
     n, pv, parent, children, attrs = pick_tree(cfg)
     explicit_empty = nondet_bool("explicit_empty_children")
     d = build_dict(children, attrs, 0, explicit_empty, clsname)
@@ -244,7 +263,7 @@ def import_body(cfg):
 
 # ------------------------------------------------------------------------------------- C11
 
-JVALUES = ["", u"é", " ", "\"\\", "\x00\x1f", 1, True, 1.0, 0, False, 0.0, -1, 2 ** 63, 1.5, -0.0, 1e-7, 1e22, True, False, None, [1, [2, "x"]], {"k": [None]},
+JVALUES = ["", u"é", " ", "\"\\", "\x00\x1f", 1, True, 1.0, 0, False, 0.0, -1, 2 ** 63, 1.5, -0.0, 1e-7, 1e22, True, False, None, [1, [2, "x"]], {"k": [None]}, {"children": None}, {"children": [], "parent": 0}, [{"children": False}],
            u"line sep ", u"\x85", "a\nb\tc", u"\U0001f600", [], {}, "trailing ", -(2 ** 70), 1e308]
 
 JOPTIONS = [
